@@ -1414,7 +1414,8 @@ pub fn c18(args: &Args) {
                 if let Ok(o) = h.await {
                     v.push(o);
                 }
-                if next < n && t0.elapsed() < budget * 2 {
+                // (not tied to the time budget of the phases before: a slow build - TSan - must still observe them)
+                if next < n {
                     hs.push(tokio::spawn(c18_startup_case(seed, next)));
                     next += 1;
                 }
